@@ -439,9 +439,9 @@ def djs_reject(data, model, outmask=None, inmask=None, sigma=None,
                 newmask[np.maximum(irejects - k, 0)] = 0
                 newmask[np.minimum(irejects + k, data.shape[0]-1)] = 0
     if inmask is not None:
-        newmask = newmask & inmask
+        newmask = newmask & (np.asarray(inmask) != 0)
     if sticky:
-        newmask = newmask & outmask
+        newmask = newmask & (np.asarray(outmask) != 0)
     #
     # Set qdone if the input outmask is identical to the output outmask;
     # convert np.bool to Python built-in bool.
